@@ -25,6 +25,7 @@ EXHAUSTIVE = {
     "thorough": {"shapes N<=3 sizes{1,2,3} x all ordered partitions x 4 sparsity patterns x 2 stored orders": "complete",
                  "N=4 shapes sizes{1,2,3}: all 120 ordered partitions": "complete (shapes sampled)"},
 }
+NPINT_ARGS = True     # a quarter of the cases pass their integer arguments as NumPy integers (core.Ctx.begin)
 WATCHDOG = {"quick": 600, "thorough": 3000}
 PATTERNS = ["none", "one", "some", "all"]
 
